@@ -175,6 +175,30 @@ def approximateFrac (N : Int) (q : Rat) : Except Err Text :=
     let whole : Nat := q.num.natAbs / q.den
     .ok ('~' :: ((if q < 0 then ['-'] else []) ++ '1' :: 'e' :: natText ((natText whole).length - 1)))
 
+/-- the rational that the text `"{:.Pg}"` of `q` denotes: `q` rounded half-to-even to `P` significant digits -/
+def roundedAt (P : Nat) (q : Rat) : Rat :=
+  if q = 0 then 0
+  else
+    let (m, e) := sigDigits P (if q < 0 then -q else q)
+    let v := (m : Rat) * pow10 (e - (P : Int) + 1)
+    if q < 0 then -v else v
+
+/-- the rational that a number's `stringify_result` text denotes (`Fraction(text)` in the interval branch): exact for
+    ints and fractions, the value rounded to the configured digits for a float -/
+def shownValue (N : Int) : Num → Rat
+  | .int n => (n : Rat)
+  | .frac q => q
+  | .flt x => roundedAt (effDigits N) (Num.floatToRat x)
+
+/-- `"{:.17g}".format(x)` for a float bound, `stringify_result(x)` for an exact one: the second rendering of an interval's
+    bounds (interpret.py, interval branch of `stringify_result`, since fix d33389f) -/
+def stringifyNumFull (N : Int) : Num → Except Err Text
+  | .flt x => fmtG 17 x
+  | n => match n with
+    | .int k => .ok (intText k)
+    | .frac q => .ok (fracText q)
+    | .flt x => precisionifyFloat N x
+
 /-- how the number kinds are stringified by `stringify_result` -/
 def stringifyNum (N : Int) (brackets : Bool) : Num → Except Err Text
   | .int n => .ok (intText n)                                   -- falls to `return str(r)`
@@ -196,7 +220,13 @@ def stringify (names : List Text) (N : Int) (brackets : Bool) : DVal → Except 
     -- the recursive calls do NOT pass brackets_for_frac on
     let x ← stringifyNum N false a
     let y ← stringifyNum N false b
-    .ok ('[' :: x ++ ',' :: ' ' :: y ++ [']'])
+    -- fix d33389f: in the text that is going to be parsed again, a float bound whose rounding carried it across the other
+    -- bound is given all its digits (`Fraction(a) > Fraction(b)` on the two texts)
+    if brackets && decide (shownValue N a > shownValue N b) then do
+      let x' ← stringifyNumFull N a
+      let y' ← stringifyNumFull N b
+      .ok ('[' :: x' ++ ',' :: ' ' :: y' ++ [']'])
+    else .ok ('[' :: x ++ ',' :: ' ' :: y ++ [']'])
   | .inst iso => .ok ('#' :: iso ++ ['#'])
 def stringifyList (names : List Text) (N : Int) (brackets : Bool) : List DVal → Except Err (List Text)
   | [] => .ok []
